@@ -267,3 +267,24 @@ Check second_connection_does_not_suppress_helper_mode :
     /\ h_rtimer (c_h c') = true /\ is_peer_restarting (h_gr (c_h c')) = true
     /\ c_sib c' = c_sib c.
 Print Assumptions second_connection_does_not_suppress_helper_mode.
+
+(* The map llgr_family_timers of the code keeps the entry of an LLGR timer that ran out
+   (Model/Gr.v t_dead).  Over every history, through any number of GR / LLGR cycles of the
+   peer: the state is the one of the histories above (dead entries influence nothing, because
+   storing a new timer overwrites the entry of its family), so stale routes exist only while
+   a restart timer or an ARMED LLGR timer is pending or an End-of-RIB is awaited; and a family
+   never has a dead entry and an armed timer at once. *)
+Theorem stale_implies_timer_or_eor_dead_timer_entries :
+  forall (evs : list cevent),
+    let t := t_run t0 evs in
+    t_c t = c_run c0 evs
+    /\ stale_ok (c_h (t_c t)) = true
+    /\ (forall f, mem f (t_dead t) = true -> mem f (h_ltimers (c_h (t_c t))) = false).
+Proof. exact C10_stale_implies_timer_or_eor_dead_timer_entries. Qed.
+Check stale_implies_timer_or_eor_dead_timer_entries :
+  forall (evs : list cevent),
+    let t := t_run t0 evs in
+    t_c t = c_run c0 evs
+    /\ stale_ok (c_h (t_c t)) = true
+    /\ (forall f, mem f (t_dead t) = true -> mem f (h_ltimers (c_h (t_c t))) = false).
+Print Assumptions stale_implies_timer_or_eor_dead_timer_entries.
